@@ -8,9 +8,14 @@ fail=0
 run_one() {
   kind=$1; patchf=$2
   base=$(basename "$patchf" .patch); prop=${base%%-*}
+  if [ "$(basename "$patchf")" = patch.diff ]; then base=seeded-$(basename "$(dirname "$patchf")"); prop=$(basename "$(dirname "$patchf")"); prop=${prop%%-*}; fi
   tmp=$(mktemp -d "${TMPDIR:-/tmp}/govc-mut-XXXXXX")
   rsync -a --exclude .git /repo/ "$tmp/repo/"
-  if ! (cd "$tmp/repo" && patch -s -p1 < "$patchf"); then echo "SELFTEST-ERROR $base: patch does not apply"; rm -rf "$tmp"; return 1; fi
+  if ! (cd "$tmp/repo" && patch -s -p1 < "$patchf" >/dev/null 2>&1); then
+    rm -rf "$tmp"
+    case "$base" in seeded-*) echo "skipped  $base: the change no longer applies to the current tree"; return 0;; esac
+    echo "SELFTEST-ERROR $base: patch does not apply"; return 1
+  fi
   if ! (cd "$tmp/repo" && go build ./... 2>"$tmp/build.log"); then echo "SELFTEST-ERROR $base: mutant does not compile"; head -3 "$tmp/build.log"; rm -rf "$tmp"; return 1; fi
   out=$("$here/bin/govc" check -repo "$tmp/repo" -prop "$prop" -tier quick -out "$tmp/ev.json" -known "$here/known_findings.json" -replays "$tmp/replays" -verif "$here" 2>&1)
   rc=$?
@@ -36,6 +41,15 @@ for kind in mutants mustpass; do
     ( run_one $kind "$p" > "$tmpout/$n.out" 2>&1; echo $? > "$tmpout/$n.rc" ) &
     while [ "$(jobs -r | wc -l)" -ge "$jobs" ]; do sleep 1; done
   done
+done
+# changes seeded by independent agents (seeded/<id>/patch.diff) are must-fail cases too
+for p in "$here"/seeded/*/patch.diff; do
+  [ -e "$p" ] || continue
+  id=$(basename "$(dirname "$p")")
+  case "$id" in "$filter"*) ;; *) [ -n "$filter" ] && continue;; esac
+  n=$((n+1))
+  ( run_one mutants "$p" > "$tmpout/$n.out" 2>&1; echo $? > "$tmpout/$n.rc" ) &
+  while [ "$(jobs -r | wc -l)" -ge "$jobs" ]; do sleep 1; done
 done
 wait
 for f in "$tmpout"/*.out; do [ -e "$f" ] && cat "$f"; done
